@@ -1742,9 +1742,40 @@ def _c18_harnesses(prop, tier):
     return out
 
 
+def _c18_blocked_sibling_harnesses(prop, tier):
+    """C18 (native only): branch 0 panics in step s while every later-numbered branch of that step is blocked on
+    something only the harness releases AFTER the caller has returned: the panic must reach the caller anyway"""
+    out = []
+    for mac in ("join_spawn", "try_join_spawn"):
+        is_try = mac.startswith("try")
+        for ds, si in [((1, 1), 0), ((2, 2), 1), ((1, 1, 1), 0), ((2, 1, 2), 1)] + ([] if tier == "quick" else [((3, 3), 2), ((2, 2, 2, 2), 1)]):
+            n = len(ds)
+            brs = []
+            for i in range(n):
+                def cb(i, s):
+                    if s != si or ds[i] <= si:
+                        return "{ x }"
+                    return "{ panic!(\"INJECTED\"); x }" if i == 0 else "{ hold(); x }"
+                t = ("Ok::<u8, u8>(%du8)" % i if is_try else "Some(%du8)" % i) + " |> |x: u8| %s" % cb(i, 0)
+                for s in range(1, ds[i]):
+                    t += " ~|> |x: u8| %s" % cb(i, s)
+                brs.append(t)
+            prog = "%s! { %s }" % (mac, ", ".join(brs))
+            b = "    hold_reset();\n"
+            b += "    let res = with_watchdog(move || std::panic::catch_unwind(std::panic::AssertUnwindSafe(|| { let _ = %s; })).is_err());\n" % prog
+            b += "    release();\n"
+            b += "    assert!(res.is_some(), \"C18: the caller was left blocked: it waits for a sibling of the panicking branch\");\n"
+            b += "    assert!(res == Some(true), \"C18: the panic of a user expression did not reach the caller\");\n"
+            hn = "%s_panic_blocked_sibling_%s_%s_s%d" % (prop.lower(), mac, pname(ds), si)
+            out.append(Harness(hn, harness_fn(hn, b), prog, note="branch 0 panics in step %d, its siblings are blocked until the caller has returned" % si))
+    return out
+
+
 def native_families(pid, tier):
     out = []
     quick = tier == "quick"
+    if pid == "C18":
+        out += _c18_blocked_sibling_harnesses(pid, tier)
     if pid == "C08":
         out += _c08_harnesses(pid, tier)
     if pid == "C18":
